@@ -179,7 +179,7 @@ public:
    int profile; bool thorough; int maxArmed;
    typedef ::World World;
 
-   PulseModel(int prof, bool th) : nperms(0), profile(prof), thorough(th), maxArmed(prof == P_CALLBACK ? 2 : N)
+   PulseModel(int prof, bool th, int onlyStart = -1) : nperms(0), profile(prof), thorough(th), maxArmed(prof == P_CALLBACK ? 2 : N)
    {
       A(K_CYCLE); A(K_SWEEP); A(K_PULSE); A(K_ADVANCE, 1); A(K_ADVANCE, 5);
       for (int n = 0; n < N; n++) for (int s = 0; s < 5; s++) A(K_SETINV, n, s);
@@ -199,6 +199,10 @@ public:
       int p[N]; for (int i = 0; i < N; i++) p[i] = i;
       do { memcpy(perms[nperms++], p, sizeof(p)); } while (std::next_permutation(p + 1, p + N));
       BuildStarts();
+      if (onlyStart >= 0 && onlyStart < (int)starts.size()) {   // a run restricted to one start state (keeps the explorer's memory bounded in the thorough tier)
+         std::vector<int> st = starts[onlyStart]; std::string nm = startNames[onlyStart];
+         starts.assign(1, st); startNames.assign(1, nm);
+      }
    }
    bool InProfile(const Op & o) const
    {
@@ -461,10 +465,11 @@ int main(int argc, char ** argv)
    if (!args.replay.empty()) {
       g_trace = true;
       verif::ReplayDoc d; if (!d.Load(args.replay)) { fprintf(stderr, "cannot read %s\n", args.replay.c_str()); return 3; }
-      int prof = -1; for (int p = 0; p < NUM_PROFILES; p++) if (d.Str("part") == ProfileName(p)) prof = p;
+      std::string part = d.Str("part"); int only = -1; const size_t at = part.find('@'); if (at != std::string::npos) { only = atoi(part.c_str() + at + 1); part = part.substr(0, at); }
+      int prof = -1; for (int p = 0; p < NUM_PROFILES; p++) if (part == ProfileName(p)) prof = p;
       if (prof < 0) { fprintf(stderr, "unknown part %s\n", d.Str("part").c_str()); return 3; }
-      PulseModel model(prof, true);   // the thorough alphabet extends the quick one at the end: indices agree
-      seqx::Explorer<PulseModel> ex(model, args, res, ProfileName(prof));
+      PulseModel model(prof, true, only);   // the thorough alphabet extends the quick one at the end: indices agree
+      seqx::Explorer<PulseModel> ex(model, args, res, d.Str("part"));
       return ex.ReplayFile(d);
    }
    // depth per explored space {quick, thorough}; share of the time budget
@@ -472,24 +477,53 @@ int main(int argc, char ** argv)
    static const double share[NUM_PROFILES] = { 0.60, 0.20, 0.20 };
    double used = 0.0;
    for (int prof = 0; prof < NUM_PROFILES; prof++) {
-      used += share[prof];
+      const double from = used; used += share[prof];
       if (!args.WantPart(ProfileName(prof))) continue;
       memset((void *)g_sh, 0, sizeof(Shared)); g_sh->exLen = 1 << 30;
-      PulseModel model(prof, args.Thorough());
-      seqx::Explorer<PulseModel> ex(model, args, res, ProfileName(prof));
-      ex.SetDeadline(args.t0 + args.deadline * 0.9 * used);
       int depth = depths[prof][args.Thorough() ? 1 : 0];
       if (args.kv.count("depth")) depth = atoi(args.kv["depth"].c_str());
       if (args.kv.count(std::string("depth-") + ProfileName(prof))) depth = atoi(args.kv[std::string("depth-") + ProfileName(prof)].c_str());
+      const PulseModel all(prof, args.Thorough());
+      // Thorough tier: one exploration per start state (run "<part>@<start>"), so that the explorer's per-level tables stay small (a single
+      // run over all start states of the full alphabet at depth 4 needs 16 GB); the runs are merged into one part below.
+      const bool split = args.Thorough() && !(args.kv.count("split") && atoi(args.kv["split"].c_str()) == 0);
+      const int runs = split ? all.NumStarts() : 1;
       const double t0 = verif::NowS();
-      seqx::Stats S = ex.Run(depth);
-      verif::Part & P = res.parts.back();
+      verif::Part M; M.name = ProfileName(prof); M.bound_completed = depth; M.exhaustive = true;
+      std::vector<unsigned long long> perDepth; unsigned long long disabled = 0, replayChecks = 0, violating = 0;
+      for (int r = 0; r < runs; r++) {
+         const PulseModel model(prof, args.Thorough(), split ? r : -1);
+         const std::string runName = split ? verif::Fmt("%s@%d", ProfileName(prof), r) : std::string(ProfileName(prof));
+         seqx::Explorer<PulseModel> ex(model, args, res, runName);
+         ex.SetDeadline(args.t0 + args.deadline * 0.9 * (from + share[prof] * (double)(r + 1) / (double)runs));
+         const seqx::Stats S = ex.Run(depth);
+         const verif::Part P = res.parts.back(); res.parts.pop_back();
+         M.states += P.states; M.transitions += P.transitions; M.evaluations += P.evaluations; if (P.distinct_outcomes > M.distinct_outcomes) M.distinct_outcomes = P.distinct_outcomes;
+         if (P.bound_completed < M.bound_completed) M.bound_completed = P.bound_completed;
+         if (!P.exhaustive) { M.exhaustive = false; M.cap += (M.cap.empty() ? "" : "; ") + (split ? runName + ": " : std::string()) + P.cap; }
+         if (!P.samples.empty() && M.samples.size() < 3) M.samples.push_back(P.samples[(size_t)r % P.samples.size()]);
+         if (!split) M.samples = P.samples;
+         for (size_t i = 0; i < S.statesPerDepth.size(); i++) { if (perDepth.size() <= i) perDepth.push_back(0); perDepth[i] += S.statesPerDepth[i]; }
+         disabled += S.disabled; replayChecks += S.replayChecks; violating += S.violations;
+         fprintf(stderr, "C20 %s: ops=%d states=%llu transitions=%llu depth=%d exhaustive=%d outcomes=%llu violations=%llu wall=%.1fs\n", runName.c_str(), model.NumOps(), (unsigned long long)S.states, (unsigned long long)S.transitions, S.depthCompleted, (int)S.exhaustive, (unsigned long long)S.distinctOutcomes, (unsigned long long)S.violations, P.wall_s);
+      }
+      M.wall_s = verif::NowS() - t0;
+      const PulseModel & model = all;
+      verif::Part & P = M;
       const char * what = (prof == P_FULL) ? "manager Sweep (GetPulseTimeAux on the root) / Pulse (SetCycleStartTime + PulseAux at now) / Cycle (both), clock +1/+5, per node: set requested time in {never,now-1,now,now+1,now+5}+InvalidatePulseTime, change requested time to {never,now-1} WITHOUT invalidating, InvalidatePulseTime(false); PutPulseChild i under j incl. re-parenting and subtrees built detached, RemovePulseChild (plus the documented no-op on non-parents), delete node, ClearPulseChildren(root); arming a one-shot action run from INSIDE a node's next Pulse(): set own next time {never,now+1}, invalidate / detach another node, attach another node under itself (thorough: also destroy another node)"
                         : (prof == P_LEAN) ? "whole manager Cycle (GetPulseTimeAux sweep then SetCycleStartTime + PulseAux at now), clock +1/+5, per node: set requested time in {never,now-1,now,now+1,now+5}+InvalidatePulseTime, change requested time to {never,now-1} WITHOUT invalidating; PutPulseChild i under j incl. re-parenting and subtrees built detached, RemovePulseChild, delete node, ClearPulseChildren(root)"
                         : "arming (at most 2 pending) a one-shot action run from INSIDE a node's next Pulse(): set own next time {never,now+1}, invalidate / detach another node, attach another node under itself (thorough: also destroy another node); manager Sweep / Pulse / Cycle, clock +1, per node set requested time now+1 + InvalidatePulseTime";
       P.rule = verif::Fmt("every sequence of <=%d operations from a %d-operation alphabet applied to a real tree of 5 PulseNodes (root + 4 attachable, depth <=3) driven through a PulseNodeManager subclass with a simulated clock, from each of %d start states (", depth, model.NumOps(), model.NumStarts());
       for (int s = 0; s < model.NumStarts(); s++) P.rule += (s ? "; " : "") + model.StartName(s);
       P.rule += std::string("). Alphabet: ") + what + ". States deduplicated on (tree shape, per node requested/returned/aggregate time relative to now, valid flag, child-list membership and position, armed actions, cycle phase, disturbed marks), minimised over the 24 relabellings of the interchangeable nodes 1..4; a state is non-trivial when its canonical form is new";
+      if (split) P.rule += "; explored separately from each start state, `states` is the sum over the start states (a state reachable from two start states counts twice), `distinct_outcomes` the maximum";
+      std::string spd = "["; for (size_t i = 0; i < perDepth.size(); i++) { if (i) spd += ","; spd += verif::Fmt("%llu", perDepth[i]); } spd += "]";
+      P.extra["new_states_per_depth"] = spd;
+      P.extra["disabled_transitions"] = verif::Fmt("%llu", disabled);
+      P.extra["replay_determinism_checks"] = verif::Fmt("%llu", replayChecks);
+      P.extra["violating_transitions"] = verif::Fmt("%llu", violating);
+      P.extra["alphabet_size"] = verif::Fmt("%d", model.NumOps());
+      P.extra["start_states"] = verif::Fmt("%d", model.NumStarts());
       P.extra["manager_sweeps_checked"] = verif::Fmt("%ld", g_sh->sweeps);
       P.extra["GetPulseTime_calls_checked"] = verif::Fmt("%ld", g_sh->asks);
       P.extra["pulse_sweeps_checked"] = verif::Fmt("%ld", g_sh->pulseSweeps);
@@ -502,7 +536,8 @@ int main(int argc, char ** argv)
             "(a node at or below that ancestor was invalidated, attached or detached): PulseAux only walks the scheduled child list. The node stays pending: every later sweep was checked to report a wake-up time <= its time, and the next undisturbed pulse sweep to run it. Shortest example: %s", ProfileName(prof), g_sh->deferredTransitions, g_sh->deferredNodes, g_sh->deferredByTopLevel, g_sh->ex));
       if (g_sh->oodTransitions)
          res.observations.push_back(verif::Fmt("%s: outside the compared domain: %ld transitions in which a Pulse() callback detached an ancestor of the running node; the implementation goes on pulsing the due nodes of the now-detached subtree in the same sweep. Executed under ASan/UBSan (no report), results not compared, histories not extended", ProfileName(prof), g_sh->oodTransitions));
-      fprintf(stderr, "C20 %s: ops=%d states=%llu transitions=%llu depth=%d exhaustive=%d outcomes=%llu violations=%llu deferred=%ld ood=%ld wall=%.1fs\n", ProfileName(prof), model.NumOps(), (unsigned long long)S.states, (unsigned long long)S.transitions, S.depthCompleted, (int)S.exhaustive, (unsigned long long)S.distinctOutcomes, (unsigned long long)S.violations, g_sh->deferredTransitions, g_sh->oodTransitions, verif::NowS() - t0);
+      fprintf(stderr, "C20 %s: ops=%d states=%llu transitions=%llu depth=%d exhaustive=%d outcomes=%llu violations=%llu deferred=%ld ood=%ld wall=%.1fs\n", ProfileName(prof), model.NumOps(), (unsigned long long)P.states, (unsigned long long)P.transitions, P.bound_completed, (int)P.exhaustive, (unsigned long long)P.distinct_outcomes, violating, g_sh->deferredTransitions, g_sh->oodTransitions, P.wall_s);
+      res.parts.push_back(M);
    }
    res.observations.push_back("the order in which several due nodes are pulsed (ties in the sorted child list are broken by insertion history) is implementation-defined; the reference follows the implementation's order and checks each callback at the moment it runs");
    return res.Write(args);
